@@ -6,7 +6,7 @@ fresh real Emitter and on a fresh executable reference model; the complete liste
 logs (callback, arguments, context, nesting depth) must be identical, including a final
 probe (two emits per name).  A second search de-duplicates on the *model* state and goes
 deeper.  Callbacks include ones that subscribe / unsubscribe / emit during delivery."""
-from ..core import Sub, fail, jkey
+from ..core import Sub, fail, jkey, scale
 
 NAMES = ('a', 'b')
 SCRIPTS = {
@@ -393,4 +393,71 @@ class ParserAsEmitter(Sub):
         return out
 
 
-SUBS = [Tree(), Graph(), ParserAsEmitter()]
+
+class EmitterScale(Sub):
+    name = 'c20.scale'
+    rule = ('size ladder of the number n of listeners on one name (plain, every third a once-listener, every fifth with a '
+            'context): the first emit calls all n in subscription order, the second all but the once-listeners; off(name, cb) of '
+            'the middle one removes exactly it; listeners on another name are untouched; off(name) removes all; non-trivial = all')
+    min_cases = 40
+    min_nontrivial = 40
+
+    def cases(self, tier, unit):
+        for n in scale(tier):
+            yield [n]
+
+    def check(self, env, case):
+        from hotxlfp.tinyemitter import Emitter
+        n = case[0]
+        env.nt()
+        e = Emitter()
+        log = []
+        cbs = []
+        for i in range(n):
+            def cb(*a, _i=i, **k):
+                log.append((_i, a, tuple(sorted(k.items()))))
+            cbs.append(cb)
+            ctx = {'k': i} if i % 5 == 4 else None
+            if i % 3 == 2:
+                e.once('a', cb, ctx) if ctx else e.once('a', cb)
+            else:
+                e.on('a', cb, ctx) if ctx else e.on('a', cb)
+        e.on('b', lambda *a: log.append(('b', a, ())))
+        env.evals += 1
+
+        def expect(alive, arg):
+            return [(i, (arg,), (('k', i),) if i % 5 == 4 else ()) for i in alive]
+        e.emit('a', 1)
+        all_ = list(range(n))
+        if log != expect(all_, 1):
+            return fail('%d listeners on one name: the first emit produced %d calls, expected %d in subscription order (first '
+                        'difference at call %d)' % (n, len(log), n, next((k for k in range(min(len(log), n)) if log[k] != expect(all_, 1)[k]),
+                                                                           min(len(log), n))))
+        del log[:]
+        alive = [i for i in all_ if i % 3 != 2]
+        e.emit('a', 2)
+        if log != expect(alive, 2):
+            return fail('%d listeners on one name, every third a once-listener: the second emit produced %d calls, expected %d' % (
+                n, len(log), len(alive)))
+        if alive:
+            del log[:]
+            mid = alive[len(alive) // 2]
+            e.off('a', cbs[mid])
+            alive = [i for i in alive if i != mid]
+            e.emit('a', 3)
+            if log != expect(alive, 3):
+                return fail('%d listeners on one name: after off(name, listener %d) the emit produced %d calls, expected %d' % (
+                    n, mid, len(log), len(alive)))
+        del log[:]
+        e.emit('b', 4)
+        if log != [('b', (4,), ())]:
+            return fail('%d listeners on name a: an emit of name b produced %r' % (n, log[:3]))
+        del log[:]
+        e.off('a')
+        e.emit('a', 5)
+        if log:
+            return fail('%d listeners on one name: after off(name) an emit still produced %d calls' % (n, len(log)))
+        return None
+
+
+SUBS = [Tree(), Graph(), ParserAsEmitter(), EmitterScale()]
